@@ -85,6 +85,8 @@ def concretize(ip, v, model, depth=0):
         cname = f"{cls.module.relpath}::{cls.qual}" if hasattr(cls, "module") else cls.name
         return {"__obj__": cname, "fields": {k: concretize(ip, x, model, depth + 1) for k, x in v.fields.items()}}
     if isinstance(v, PDict):
+        if v.symbolic and v.objmap is not None:
+            return {"__dictobj__": [[solver.model_value(model, k0), concretize(ip, o, model, depth + 1)] for k0, o in v.objmap]}
         if v.symbolic:
             dom = _array_entries(model.eval(v.dom, model_completion=True))
             if dom is None:
@@ -253,7 +255,7 @@ class UnitRunner:
                     ip_.raise_exc(exc)
             ret = st.get("returns")
             if isinstance(ret, str) and ret not in ("int", "bool", "bytes", "str", "real", "any"):
-                env["result"] = ip_.eval_spec_expr(ret, env)
+                env["result"] = ip_.eval_spec_expr(ret, env, total=True)
             else:
                 env["result"] = ip_.make_symbolic(ret, "ret_" + f.name) if ret is not None else None
             for e in st.get("ensures", []):
@@ -305,7 +307,7 @@ class UnitRunner:
                             e2["ev"] = ev
                             e2["args"] = ev.args
                             for gi, g in enumerate(guards):
-                                ip.oblige(f"guard@{pat}#{gi}", ip.eval_spec_expr(g, e2), {"guard": g, "line": ev.lineno})
+                                ip.oblige(f"guard@{pat}#{gi}", ip.eval_spec_expr(g, e2, total=True), {"guard": g, "line": ev.lineno})
                 ip.on_effect = on_eff
             # old() snapshots
             old_cache = {}
@@ -339,6 +341,9 @@ class UnitRunner:
                         ip.oblige(f"post-raise#{i}", ip.eval_spec_expr(e, env, total=True), {"ensures_raise": e})
             else:
                 env["raised"] = None
+                if c["raises"] is not None:
+                    # the path ended without an exception: the 'raises' clause holds on it (discharged by execution)
+                    ip.oblige("raises-clause", True, {"raises": c["raises"]})
                 for i, e in enumerate(c["ensures"]):
                     ip.oblige(f"post#{i}", ip.eval_spec_expr(e, env, total=True), {"ensures": e if isinstance(e, str) else "<fn>"})
             inlined_all.update(ip.inlined)
